@@ -60,134 +60,128 @@ from .symexec_c19 import (C, FALSE, NONE, SLICE_ALL, TRUE, Ctx, Exec, _body, _ch
 from . import symexec_c19
 
 # ------------------------------------------------------------------------------------------------
-# Orchestrator._iter
+# Orchestrator.fit_predict (with the generator it iterates over inlined, whatever its name)
 
-def _iter_facts(orch):
-    ctx = Ctx(orch, "Orchestrator", primitives={"_iter", "fit", "predict", "fit_predict", "_predict_proba_one",
-                                                "_print_progress"})
-    ex = Exec(ctx)
-    fn = ctx.method("_iter")
-    if _params(fn, True)[0]:
-        _fail("_iter signature", fn)
-    node = ex.run_function(fn, {"self": ("self",)})
-    nest, loopvars, clones, yields, split = [], {}, [], [], []
-    start = [None]
-
-    def walk(node, depth):
-        effs, term = straight(node, "_iter")            # loop bodies of _iter do not branch
-        if term[0] not in ("ret", "end"):
-            _fail("_iter: unexpected control flow")
-        for e in effs:
-            if e[0] in ("setattr", "augattr") and e[1] == ("self",) and e[2].endswith("_counter"):
-                continue                                         # progress display only
-            if e[0] == "call":
-                n = fn_of(e)
-                if n == "clone":
-                    clones.append((depth, e))
-                elif n == "self.cv.split":
-                    split.append(e)
-                elif not (n in ("zip", "enumerate") or (e[1][0] == "attr" and e[1][2] == "load" and not e[2] and not e[3])):
-                    _fail("_iter: unexpected call", e)
-                continue
-            if e[0] == "for":
-                it, tgt, body, lv = e[1], e[2], e[3], e[4]
-                n = fn_of(it)
-                if n == "zip" and [show(a) for a in it[2]] == ["self.tasks", "self.datasets"] and not it[3] \
-                        and isinstance(tgt, tuple) and len(tgt) == 2:
-                    kind = "data"
-                elif show(it) == "self.strategies" and isinstance(tgt, str):
-                    kind = "strat"
-                elif n == "enumerate":
-                    b = kwget(it, ["iterable", "start"], "enumerate")
-                    st = b.get("start", C(0))
-                    if st[0] != "const" or not isinstance(st[1], int) or isinstance(st[1], bool):
-                        _fail("_iter: enumerate start", it)
-                    start[0] = st[1]
-                    loopvars["split"] = b.get("iterable")
-                    if not (isinstance(tgt, tuple) and len(tgt) == 2 and isinstance(tgt[1], tuple) and len(tgt[1]) == 2):
-                        _fail("_iter: target of the fold loop must be (fold, (train, test))")
-                    kind = "fold"
-                else:
-                    _fail("_iter: unknown loop over", it)
-                if kind in nest:
-                    _fail("_iter: two %s loops" % kind)
-                nest.append(kind)
-                loopvars[kind] = (lv, depth + 1)
-                walk(body, depth + 1)
-                continue
-            if e[0] == "yield":
-                yields.append((depth, list(nest), e[1]))
-                continue
-            _fail("_iter: unexpected effect", e)
-
-    walk(node, 0)
-    if len(yields) != 1 or yields[0][1] not in (["data", "strat", "fold"], ["strat", "data", "fold"]) or yields[0][0] != 3:
-        _fail("_iter: exactly one yield, inside the three loops with the folds innermost, expected")
-    rec = yields[0][2]
-    if rec[0] != "tuple" or len(rec[1]) != 7:
-        _fail("_iter: must yield (task, dataset, data, strategy, cv_fold, train_idx, test_idx)")
-    task, dataset, data, strategy, fold, tr, te = rec[1]
-    zlv, slv, flv = loopvars["data"][0], loopvars["strat"][0], loopvars["fold"][0]
-    if [task, dataset] != [("proj", zlv, 0, 2), ("proj", zlv, 1, 2)]:
-        _fail("_iter: task / dataset are not the pair of zip(self.tasks, self.datasets)")
-    if data != ("call", ("attr", dataset, "load"), (), ()):
-        _fail("_iter: data is not dataset.load()", data)
-    pair = ("proj", flv, 1, 2)
-    if [fold, tr, te] != [("proj", flv, 0, 2), ("proj", pair, 0, 2), ("proj", pair, 1, 2)]:
-        _fail("_iter: (cv_fold, (train_idx, test_idx)) are not the components of enumerate(...)")
-    want_split = ("call", ("attr", ("attr", ("self",), "cv"), "split"), (data, ("sub", data, ("attr", task, "target"))), ())
-    if loopvars["split"] != want_split:
-        _fail("_iter: the folds are not self.cv.split(data, data[task.target])", loopvars["split"])
-    # the strategy handed out: a clone of the strategy-loop variable, made inside the fold loop
-    if strategy == slv:
-        clone_per_fold = False
-    elif strategy == ("call", ("global", "clone"), (slv,), ()):
-        clone_per_fold = [d for d, _ in clones] == [loopvars["fold"][1]]
-    else:
-        _fail("_iter: the strategy handed out is neither the loop variable nor clone(<it>)", strategy)
-    return {"nest": yields[0][1][:2], "start": start[0], "clone_per_fold": clone_per_fold,
-            "roles": ["task", "dataset", "data", "strategy", "cv_fold", "train_idx", "test_idx"]}
+STRATEGY, PROTO = ("role", "strategy"), ("role", "strategy_proto")
+TASK, DATASET, DATA, FOLD = ("role", "task"), ("role", "dataset"), ("role", "data"), ("role", "cv_fold")
+SNAME, DNAME = ("sname",), ("dname",)
+RESULTS = ("attr", ("self",), "results")
+PURE_BUILTINS = {"isinstance", "hasattr", "len", "str", "repr", "type", "int", "float", "bool", "getattr",
+                 "list", "tuple", "set", "sorted", "min", "max", "format", "print"}
+DANGEROUS_ROOTS = {"os", "shutil", "open", "dump", "load", "joblib", "pickle", "subprocess", "sys", "exec",
+                   "eval", "pathlib", "Path", "glob", "tempfile"}
 
 
-# ------------------------------------------------------------------------------------------------
-# Orchestrator.fit_predict
+def _root(t):
+    while t[0] in ("attr", "sub", "call"):
+        t = t[1]
+    return t
 
-def _fp_hook(roles):
-    """symbolic reading of the loop body's values"""
-    strategy, dataset, task, data, fold = ("role", "strategy"), ("role", "dataset"), ("role", "task"), ("role", "data"), ("role", "cv_fold")
-    sname, dname = ("attr", strategy, "name"), ("attr", dataset, "name")
+
+def _mentions(t, atoms):
+    if not isinstance(t, tuple):
+        return False
+    if t in atoms:
+        return True
+    return any(_mentions(x, atoms) for x in t)
+
+
+def touches_model(e):
+    """may this call change (or depend on changing) the modelled state: the result store, the
+    strategy / estimator, the data, the file system?  Everything else - logging, progress display,
+    timestamps, string formatting, queries of the task / the cv object - cannot."""
+    if e[0] != "call":
+        return True
+    f = e[1]
+    r = _root(f)
+    if r[0] == "global" and r[1] in PURE_BUILTINS and f == r:
+        return False
+    if r[0] == "global" and r[1] in DANGEROUS_ROOTS:
+        return True
+    state = {RESULTS, STRATEGY, PROTO, DATA, DATASET}
+    if _mentions(f, state) or _mentions(f, {("rows", "ITrain"), ("rows", "ITest")}):
+        return True                       # a method of a modelled object
+    return _mentions((e[2], e[3]), {RESULTS, STRATEGY, PROTO})     # a modelled object handed to unknown code
+
+
+def _orch_hook(state):
+    def strat(t):
+        return t in (STRATEGY, PROTO)
 
     def hook(t):
         k = t[0]
-        if k == "sub" and t[1] == ("attr", data, "iloc") and t[2][0] == "idx":
+        if k == "attr" and t[2] == "name" and strat(t[1]):
+            return SNAME
+        if k == "attr" and t[2] == "name" and t[1] == DATASET:
+            return DNAME
+        if k == "sub" and t[1] == ("attr", DATA, "iloc") and t[2][0] == "idx":
             return ("rows", t[2][1])
         if k == "sub" and t[1][0] == "attr" and t[1][2] == "loc" and t[1][1][0] == "rows" \
-                and t[2] == ("tuple", (SLICE_ALL, ("attr", task, "target"))):
+                and t[2] == ("tuple", (SLICE_ALL, ("attr", TASK, "target"))):
             return ("ytrue", t[1][1][1])
         if k == "call":
             n = fn_of(t)
             if n == "pd.Timestamp.now" and not t[2] and not t[3]:
                 return ("time",)
-            if t[1] == ("attr", ("attr", ("self",), "results"), "check_predictions_exist"):
+            if t[1] == ("attr", DATASET, "load") and not t[2] and not t[3]:
+                return ("traced", ("neutral",), DATA)
+            if t[1] == ("global", "clone") and list(t[2]) == [PROTO] and not t[3]:
+                return ("traced", ("clone",), STRATEGY)
+            if t[1][0] == "attr" and t[1][1] == RESULTS:
+                state.setdefault("api_kws", {}).setdefault(t[1][2], set()).update(n for n, _ in t[3])
+            if t[1] == ("attr", RESULTS, "check_predictions_exist"):
                 b = kwget(t, KEYSIG, "check_predictions_exist")
                 part = b.get("train_or_test")
-                if [b.get(x) for x in KEYSIG[:3]] != [sname, dname, fold] or part not in (C("train"), C("test")):
+                if [b.get(x) for x in KEYSIG[:3]] != [SNAME, DNAME, FOLD] or part not in (C("train"), C("test")):
                     _fail("check_predictions_exist is not asked about (strategy.name, dataset.name, cv_fold, 'train'|'test')", t)
                 item = ITEM[("csv", part[1])]
                 return ("traced", ("checkcall", item), ("check", item))
-            if t[1] == ("attr", ("attr", ("self",), "results"), "check_fitted_strategy_exists"):
+            if t[1] == ("attr", RESULTS, "check_fitted_strategy_exists"):
                 b = kwget(t, KEYSIG[:3], "check_fitted_strategy_exists")
-                if [b.get(x) for x in KEYSIG[:3]] != [sname, dname, fold]:
+                if [b.get(x) for x in KEYSIG[:3]] != [SNAME, DNAME, FOLD]:
                     _fail("check_fitted_strategy_exists is not asked about (strategy.name, dataset.name, cv_fold)", t)
                 return ("traced", ("checkcall", "IFit"), ("check", "IFit"))
-            if t[1] == ("attr", strategy, "predict"):
+            if t[1][0] == "attr" and strat(t[1][1]) and t[1][2] == "predict":
                 if len(t[2]) != 1 or t[3] or t[2][0][0] != "rows":
                     _fail("strategy.predict is not called on a part of the fold", t)
-                return ("traced", ("predict", t[2][0][1]), ("pred", t[2][0][1]))
-            if n == "self._predict_proba_one":
-                return ("traced", ("neutral",), ("proba",))     # y_proba is outside the model
+                return ("traced", ("predict", t[2][0][1], t[1][1]), ("pred", t[2][0][1]))
+            if t[1][0] == "attr" and strat(t[1][1]) and t[1][2] == "predict_proba" and len(t[2]) == 1 and not t[3] \
+                    and t[2][0][0] == "rows":
+                return ("traced", ("neutral",), ("proba",))      # y_proba is outside the model
         return t
-    return hook, sname, dname
+    return hook
+
+
+def _orch_binder(state):
+    """roles of loop variables by WHAT is iterated over (not by the name or the position of anything)"""
+    def binder(stmt, it):
+        names = _target_names(stmt.target)
+        if it == ("call", ("global", "zip"), (("attr", ("self",), "tasks"), ("attr", ("self",), "datasets")), ()):
+            if not (isinstance(names, tuple) and len(names) == 2 and all(isinstance(n, str) for n in names)):
+                _fail("the loop over zip(self.tasks, self.datasets) must unpack (task, dataset)", stmt)
+            state["nest"].append("data")
+            return {names[0]: TASK, names[1]: DATASET}
+        if it == ("attr", ("self",), "strategies"):
+            if not isinstance(names, str):
+                _fail("the loop over self.strategies must bind one name", stmt)
+            state["nest"].append("strat")
+            return {names: PROTO}
+        if it[0] == "call" and it[1] == ("global", "enumerate"):
+            b = kwget(it, ["iterable", "start"], "enumerate")
+            want = ("call", ("attr", ("attr", ("self",), "cv"), "split"), (DATA, ("sub", DATA, ("attr", TASK, "target"))), ())
+            if b.get("iterable") != want:
+                return None
+            st = b.get("start", C(0))
+            if st[0] != "const" or not isinstance(st[1], int) or isinstance(st[1], bool):
+                _fail("enumerate start of the fold loop", stmt)
+            if not (isinstance(names, tuple) and len(names) == 2 and isinstance(names[0], str)
+                    and isinstance(names[1], tuple) and len(names[1]) == 2 and all(isinstance(n, str) for n in names[1])):
+                _fail("the fold loop must unpack (cv_fold, (train_idx, test_idx))", stmt)
+            state["nest"].append("fold")
+            state["start"] = st[1]
+            return {names[0]: FOLD, names[1][0]: ("idx", "ITrain"), names[1][1]: ("idx", "ITest")}
+        return None
+    return binder
 
 
 def _cond(c, what):
@@ -202,23 +196,23 @@ def _cond(c, what):
         return "(" + (" && " if k == "and" else " || ").join(_cond(x, what) for x in c[1]) + ")"
     if k == "const" and isinstance(c[1], bool):
         return "true" if c[1] else "false"
+    if k == "ite":
+        return "(if %s then %s else %s)" % (_cond(c[1], what), _cond(c[2], what), _cond(c[3], what))
     _fail("%s: condition is not and/or/not over the flags and the existence checks" % what, c)
 
 
-def _fit_predict_facts(orch, roles):
-    hook, sname, dname = _fp_hook(roles)
-    ctx = Ctx(orch, "Orchestrator", primitives={"_iter", "fit", "predict", "fit_predict", "_predict_proba_one",
-                                                "_print_progress"}, hook=hook)
-    def binder(stmt, it):
-        if show(it) != "self._iter()":
-            return None
-        names = _target_names(stmt.target)
-        if not (isinstance(names, tuple) and len(names) == len(roles) and all(isinstance(n, str) for n in names)):
-            _fail("fit_predict: the loop must unpack the %d values _iter yields" % len(roles), stmt)
-        return {n: ("idx", "ITrain") if r == "train_idx" else ("idx", "ITest") if r == "test_idx" else ("role", r)
-                for n, r in zip(names, roles)}
+def _is_model_cond(c):
+    try:
+        _cond(c, "")
+        return True
+    except Unsupported:
+        return False
 
-    ex = Exec(ctx, binder)
+
+def _orch_facts(orch):
+    state = {"nest": [], "start": None}
+    ctx = Ctx(orch, "Orchestrator", primitives={"fit", "predict", "fit_predict"}, hook=_orch_hook(state))
+    ex = Exec(ctx, _orch_binder(state))
     fn = ctx.method("fit_predict")
     params, _ = _params(fn, True)
     if any(f not in params for f in FLAGS):
@@ -227,50 +221,77 @@ def _fit_predict_facts(orch, roles):
     for p in params:
         env[p] = ("flag", p) if p in FLAGS else ("param", p)
     node = ex.run_function(fn, env)
-    # --- top level: (neutral)*, if <flags>: raise ValueError, the loop, results.save(), end
-    neutral = {"self._print_progress"}
 
-    def top(node, cond_path):
-        while node[0] == "eff" and is_neutral(node[1], neutral):
+    def neutral(e):
+        if e == ("neutral",):
+            return True
+        if e[0] in ("setattr", "augattr") and e[1] == ("self",) and e[2].endswith("_counter"):
+            return True                                         # progress display only
+        if e[0] == "call":
+            return not touches_model(e)
+        return False
+
+    def skip(node):
+        while node[0] == "eff" and neutral(node[1]):
             node = node[2]
         return node
-    node = top(node, [])
+    # --- top level: if <flags>: raise ValueError | the loops | results.save() | end
+    node = skip(node)
     if node[0] != "if":
         _fail("fit_predict must start with the validation of the flags")
-    c, a, b = node[1], top(node[2], []), top(node[3], [])
+    c, a, b = node[1], skip(node[2]), skip(node[3])
     if a[0] == "raise":
-        rejects, rest = c, b
+        rejects, rest, bad = c, b, a
     elif b[0] == "raise":
-        rejects, rest = mk_not(c), a
+        rejects, rest, bad = mk_not(c), a, b
     else:
         _fail("fit_predict: the flag validation must raise")
-    bad = a if a[0] == "raise" else b
     if not (bad[1][0] == "call" and show(bad[1][1]) == "ValueError"):
         _fail("fit_predict: the flag validation must raise ValueError", bad[1])
-    rest = top(rest, [])
-    if not (rest[0] == "eff" and rest[1][0] == "call" and show(rest[1][1]) == "self._iter"):
-        _fail("fit_predict: the loop must run over self._iter()")
-    rest = rest[2]
-    if not (rest[0] == "eff" and rest[1][0] == "for" and show(rest[1][1]) == "self._iter()"):
-        _fail("fit_predict: the loop over self._iter() must follow the flag validation")
-    loop = rest[1]
-    after = top(rest[2], [])
-    if not (after[0] == "eff" and after[1][0] == "call" and show(after[1]) == "self.results.save()"):
-        _fail("fit_predict: self.results.save() must be the statement after the loop")
-    fin = top(after[2], [])
-    if fin[0] != "ret":
+    # --- the three loops, outermost first; the plan is the body of the innermost
+    clones = []
+    depth = 0
+    body = rest
+    while True:
+        body = skip(body)
+        if body[0] == "eff" and body[1] == ("clone",):
+            clones.append(depth)
+            body = body[2]
+            continue
+        if body[0] == "eff" and body[1][0] == "for" and depth < 3:
+            inner, after = body[1][3], skip(body[2])
+            if depth == 0:
+                after_loops = after
+            elif after[0] not in ("end", "cont"):
+                _fail("fit_predict: nothing modelled may follow an inner loop")
+            depth += 1
+            body = inner
+            continue
+        break
+    if depth != 3 or sorted(state["nest"]) != ["data", "fold", "strat"] or state["nest"][2] != "fold":
+        _fail("fit_predict must iterate over zip(tasks, datasets), the strategies and the enumerated folds "
+              "(folds innermost), found %s" % state["nest"])
+    if not (after_loops[0] == "eff" and after_loops[1][0] == "call" and after_loops[1][1] == ("attr", RESULTS, "save")
+            and not after_loops[1][2] and not after_loops[1][3]):
+        _fail("fit_predict: self.results.save() must be the statement after the loops")
+    if skip(after_loops[2])[0] != "ret":
         _fail("fit_predict: nothing may follow self.results.save()")
-    body = loop[3]
-    fold = ("role", "cv_fold")
-    strategy = ("role", "strategy")
+    used = {"fit": None}
 
     def emit(node, acted, pending):
         """tree -> Gallina term of type list op"""
         if node[0] == "if":
-            if pending:
-                _fail("a prediction is computed but its record is stored conditionally")
-            return "(if %s\n   then %s\n   else %s)" % (_cond(node[1], "fit_predict"), emit(node[2], acted, None),
-                                                        emit(node[3], acted, None))
+            if _is_model_cond(node[1]):
+                if pending:
+                    _fail("a prediction is computed but its record is stored conditionally")
+                return "(if %s\n   then %s\n   else %s)" % (_cond(node[1], "fit_predict"), emit(node[2], acted, None),
+                                                            emit(node[3], acted, None))
+            # a condition about something outside the model (verbose, the kind of task, ...): both
+            # branches must perform the same modelled operations
+            x, y = emit(node[2], acted, pending), emit(node[3], acted, pending)
+            if x != y:
+                _fail("the modelled operations depend on a condition outside the model", node[1])
+            return x
         if node[0] in ("cont", "end"):
             if pending:
                 _fail("a prediction on the %s part is computed but never stored" % pending)
@@ -278,36 +299,43 @@ def _fit_predict_facts(orch, roles):
         if node[0] != "eff":
             _fail("fit_predict: unexpected control flow in the loop body (%s)" % node[0])
         e, nxt = node[1], node[2]
-        if e == ("neutral",) or is_neutral(e, neutral):
-            return emit(nxt, acted, pending)
         if e[0] == "checkcall":
             if acted:
                 _fail("existence check of %s evaluated after the iteration has already fitted / written" % e[1])
             return emit(nxt, acted, pending)
+        if e == ("clone",):
+            clones.append(3)
+            return emit(nxt, acted, pending)
         if e[0] == "predict":
             if pending:
                 _fail("two predictions without storing the first")
+            if e[2] != used["fit"]:
+                _fail("the strategy that predicts is not the one that was fitted")
             return emit(nxt, True, e[1])
         if e[0] == "call":
             f = e[1]
-            if f == ("attr", ("attr", ("self",), "results"), "_append_key"):
-                if list(e[2]) != [sname, dname] or e[3]:
+            if f == ("attr", RESULTS, "_append_key"):
+                if list(e[2]) != [SNAME, DNAME] or e[3]:
                     _fail("_append_key is not given (strategy.name, dataset.name)", e)
                 return "[OReg t] ++ " + emit(nxt, True, pending)
-            if f == ("attr", strategy, "fit"):
-                if e[3] or list(e[2]) != [("role", "task"), ("rows", "ITrain")]:
+            if f[0] == "attr" and f[2] == "fit" and f[1] in (STRATEGY, PROTO):
+                b = kwget(e, ["task", "data"], "strategy.fit")        # BaseStrategy.fit(self, task, data)
+                if [b.get("task"), b.get("data")] != [TASK, ("rows", "ITrain")]:
                     _fail("strategy.fit is not called as fit(task, <the fold's training instances>)", e)
                 if pending:
                     _fail("fit between a prediction and its record")
+                if used["fit"] not in (None, f[1]):
+                    _fail("two different strategy objects are fitted")
+                used["fit"] = f[1]
                 return "[OFit t] ++ " + emit(nxt, True, pending)
-            if f == ("attr", ("attr", ("self",), "results"), "save_fitted_strategy"):
+            if f == ("attr", RESULTS, "save_fitted_strategy"):
                 b = kwget(e, ["strategy", "dataset_name", "cv_fold"], "save_fitted_strategy")
-                if [b.get(k) for k in ("strategy", "dataset_name", "cv_fold")] != [strategy, dname, fold]:
-                    _fail("save_fitted_strategy is not given (strategy, dataset.name, cv_fold)", e)
+                if [b.get(k) for k in ("strategy", "dataset_name", "cv_fold")] != [used["fit"], DNAME, FOLD]:
+                    _fail("save_fitted_strategy is not given (the fitted strategy, dataset.name, cv_fold)", e)
                 if pending:
                     _fail("save_fitted_strategy between a prediction and its record")
                 return "[OSave t] ++ " + emit(nxt, True, pending)
-            if f == ("attr", ("attr", ("self",), "results"), "save_predictions"):
+            if f == ("attr", RESULTS, "save_predictions"):
                 sig = ["strategy_name", "dataset_name", "y_true", "y_pred", "y_proba", "index", "cv_fold",
                        "train_or_test", "fit_estimator_start_time", "fit_estimator_end_time",
                        "predict_estimator_start_time", "predict_estimator_end_time"]
@@ -316,7 +344,7 @@ def _fit_predict_facts(orch, roles):
                 if part not in (C("train"), C("test")):
                     _fail("save_predictions: train_or_test must be the literal 'train' or 'test'", e)
                 item = ITEM[("csv", part[1])]
-                if [b.get(k) for k in ("strategy_name", "dataset_name", "cv_fold")] != [sname, dname, fold]:
+                if [b.get(k) for k in ("strategy_name", "dataset_name", "cv_fold")] != [SNAME, DNAME, FOLD]:
                     _fail("save_predictions is not given (strategy.name, dataset.name, cv_fold)", e)
                 if b.get("index") != ("idx", item):
                     _fail("the record stored as %r does not carry the positions of that part" % part[1], e)
@@ -325,10 +353,18 @@ def _fit_predict_facts(orch, roles):
                 if b.get("y_pred") != ("pred", item) or pending != item:
                     _fail("the record stored as %r: y_pred is not the prediction just made on that part" % part[1], e)
                 return "[OPred t %s] ++ " % item + emit(nxt, True, None)
+        if neutral(e):
+            return emit(nxt, acted, pending)
         _fail("fit_predict: unexpected operation in the loop body", e)
 
     plan = emit(body, False, None)
-    return {"rejects": _cond(rejects, "flag validation"), "plan": plan}
+    # a fresh clone per fold: the strategy that is fitted is clone(<strategy loop variable>), made
+    # inside the fold loop (and nowhere else)
+    clone_per_fold = used["fit"] == STRATEGY and clones == [3]
+    if used["fit"] is None:
+        _fail("fit_predict never fits the strategy")
+    return {"rejects": _cond(rejects, "flag validation"), "plan": plan, "nest": state["nest"][:2],
+            "start": state["start"], "clone_per_fold": clone_per_fold, "api_kws": state.get("api_kws", {})}
 
 
 # ------------------------------------------------------------------------------------------------
@@ -336,28 +372,39 @@ def _fit_predict_facts(orch, roles):
 
 def _results_hook(t):
     if t[0] == "call":
-        if t[1] == ("attr", ("self",), "_generate_key"):
-            b = kwget(t, KEYSIG, "_generate_key")
-            if sorted(b) != sorted(KEYSIG):
-                _fail("_generate_key needs all four fields", t)
-            return ("genkey", tuple(b[k] for k in KEYSIG))
         if fn_of(t) == "np.asarray" and len(t[2]) == 1 and not t[3]:
             return t[2][0]                       # array conversion: the same values
     return t
 
 
-RES_PRIMS = {"_generate_key", "_append_key", "_iter", "save", "save_predictions", "load_predictions",
+# the interface between the Orchestrator and a results object (called across classes, by name);
+# everything else a results class uses - the function that builds file names / dict keys, the
+# registry generator - is found by following the calls and inlined
+RES_PRIMS = {"_append_key", "save", "save_predictions", "load_predictions",
              "check_predictions_exist", "check_fitted_strategy_exists", "save_fitted_strategy",
              "load_fitted_strategy"}
 
 
-def _key(term, suffix, fields, what):
-    """the file / dict key addressed by `term` must be the one of `fields` with this suffix"""
-    want = ("genkey", tuple(fields))
-    if suffix is not None:
-        want = ("add", want, C("." + suffix))
+def subst(t, m):
+    if not isinstance(t, tuple):
+        return t
+    if t in m:
+        return m[t]
+    return tuple(subst(x, m) for x in t)
+
+
+def _same_address(term, proto, mapping, what):
+    """`term` must address the entry that the existence check looks at (`proto`, a term over the
+    check's own parameters), for the fields given by `mapping`"""
+    want = subst(proto, {("param", k): v for k, v in mapping.items()})
     if term != want:
-        _fail("%s addresses %s, expected %s" % (what, show(term), show(want)))
+        _fail("%s addresses %s, but the existence check looks at %s" % (what, show(term), show(want)))
+
+
+def _depends_on(proto, fields, what):
+    for n in fields:
+        if not _mentions(proto, {("param", n)}):
+            _fail("%s: the address does not depend on %s" % (what, n), proto)
 
 
 def _value_fn(ex, ctx, name, sig, what):
@@ -390,25 +437,6 @@ def _wrapper_sig(base):
     return sig
 
 
-def _uses_all_fields(ctx, what):
-    """the key function's result depends on each of its four parameters"""
-    fn = ctx.method("_generate_key")
-    names, _ = _params(fn, True)
-    if names != KEYSIG:
-        _fail("%s signature" % what, fn)
-    ex = Exec(Ctx(ctx.mod, None))                 # no hook: _generate_key itself is executed
-    env = {"self": ("self",)}
-    env.update({n: _P(n) for n in names})
-    node = ex.run_function(fn, env)
-    for effs, _c, term in leaves(node):
-        if term[0] != "ret":
-            _fail("%s: must return the key on every path" % what, fn)
-        flat = repr(term[1])
-        for n in KEYSIG:
-            if repr(_P(n)) not in flat:
-                _fail("%s: the returned key does not depend on %s" % (what, n), fn)
-
-
 def _isfile_of(node, what):
     effs, term = straight(collapse(node), what, neutral={"os.path.isfile"})
     if effs or term[0] != "ret":
@@ -419,16 +447,23 @@ def _isfile_of(node, what):
     return v[2][0]
 
 
-def _hdd_facts(res, wsig):
-    ctx = Ctx(res, "HDDResults", primitives=RES_PRIMS, hook=_results_hook)
+def _hdd_facts(res, wsig, bases):
+    ctx = Ctx(res, "HDDResults", primitives=RES_PRIMS, hook=_results_hook, bases=bases)
     ex = Exec(ctx)
     f = {}
     own = [_P(k) for k in KEYSIG]
-    # existence checks
-    _key(_isfile_of(_value_fn(ex, ctx, "check_predictions_exist", KEYSIG, "check_predictions_exist"),
-                    "check_predictions_exist"), "csv", own, "check_predictions_exist")
-    _key(_isfile_of(_value_fn(ex, ctx, "check_fitted_strategy_exists", KEYSIG[:3], "check_fitted_strategy_exists"),
-                    "check_fitted_strategy_exists"), "pickle", own[:3] + [C("train")], "check_fitted_strategy_exists")
+    # existence checks: os.path.isfile(<file>); the file terms ARE the addresses of the store's entries
+    kp = _isfile_of(_value_fn(ex, ctx, "check_predictions_exist", KEYSIG, "check_predictions_exist"),
+                    "check_predictions_exist")
+    kf = _isfile_of(_value_fn(ex, ctx, "check_fitted_strategy_exists", KEYSIG[:3], "check_fitted_strategy_exists"),
+                    "check_fitted_strategy_exists")
+    _depends_on(kp, KEYSIG, "check_predictions_exist")
+    _depends_on(kf, KEYSIG[:3], "check_fitted_strategy_exists")
+    for part in ("train", "test"):
+        if subst(kp, {_P("train_or_test"): C(part)}) == kf:
+            _fail("the fitted strategy and the %s predictions are kept in the same file" % part, kf)
+    if subst(kp, {_P("train_or_test"): C("train")}) == subst(kp, {_P("train_or_test"): C("test")}):
+        _fail("train and test predictions are kept in the same file", kp)
     f["has_pred"] = f["has_fit"] = "fhas k (sfiles st)"
     # save_predictions: frame -> file, then register
     fn = ctx.method("save_predictions")
@@ -448,7 +483,7 @@ def _hdd_facts(res, wsig):
         _fail("save_predictions: to_csv(float_format=...) loses digits")
     if set(b) - {"path_or_buf", "header", "index"}:
         _fail("save_predictions: to_csv keywords %s" % sorted(b))
-    _key(b.get("path_or_buf"), "csv", own, "HDDResults.save_predictions")
+    _same_address(b.get("path_or_buf"), kp, {k: _P(k) for k in KEYSIG}, "HDDResults.save_predictions")
     cols = {}
     for k, v in frame[2][0][1]:
         if k[0] != "const":
@@ -462,16 +497,9 @@ def _hdd_facts(res, wsig):
     if _params(fn, True)[0] != ["cv_fold", "train_or_test"]:
         _fail("load_predictions signature", fn)
     node = ex.run_function(fn, {"self": ("self",), "cv_fold": _P("cv_fold"), "train_or_test": _P("train_or_test")})
-    effs, term = straight(node, "HDDResults.load_predictions")
-    loops = [e for e in effs if e[0] == "for"]
-    others = [e for e in effs if e[0] != "for" and show(e) != "self._iter()"]
-    if len(loops) != 1 or others or show(loops[0][1]) != "self._iter()" or not (
-            isinstance(loops[0][2], tuple) and len(loops[0][2]) == 2):
-        _fail("load_predictions: one loop `for strategy, dataset in self._iter()` expected")
-    lv = loops[0][4]
-    s_lv, d_lv = ("proj", lv, 0, 2), ("proj", lv, 1, 2)
-    beffs, bterm = straight(loops[0][3], "load_predictions loop body", neutral={"pd.read_csv", "_PredictionsWrapper"})
-    if len(beffs) != 1 or beffs[0][0] != "yield" or bterm[0] != "end":
+    s_lv, d_lv, f["reg_outer"], body = _registry_loops(node, "HDDResults.load_predictions")
+    beffs, bterm = straight(body, "load_predictions loop body", neutral={"pd.read_csv", "_PredictionsWrapper"})
+    if len(beffs) != 1 or beffs[0][0] != "yield" or bterm[0] not in ("end", "cont"):
         _fail("load_predictions: the loop body must read one file and yield one record")
     rec = beffs[0][1]
     if fn_of(rec) != "_PredictionsWrapper":
@@ -497,7 +525,9 @@ def _hdd_facts(res, wsig):
     rb = kwget(fr, ["filepath_or_buffer", "sep", "delimiter", "header", "float_precision"], "read_csv")
     if set(rb) - {"filepath_or_buffer", "header", "float_precision"} or rb.get("header", C(0)) != C(0):
         _fail("load_predictions: read_csv keywords", fr)
-    _key(rb.get("filepath_or_buffer"), "csv", [s_lv, d_lv, _P("cv_fold"), _P("train_or_test")], "load_predictions")
+    _same_address(rb.get("filepath_or_buffer"), kp, {"strategy_name": s_lv, "dataset_name": d_lv,
+                                                     "cv_fold": _P("cv_fold"), "train_or_test": _P("train_or_test")},
+                  "load_predictions")
     f["back"] = back
     f["round_trip"] = rb.get("float_precision") == C("round_trip")
     # fitted strategies
@@ -507,15 +537,15 @@ def _hdd_facts(res, wsig):
     if len(effs) != 2 or term[0] != "ret" or not (
             effs[0][0] == "call" and effs[0][1] == ("attr", _P("strategy"), "save") and len(effs[0][2]) == 1 and not effs[0][3]):
         _fail("save_fitted_strategy: strategy.save(<file>), then _append_key expected")
-    _key(effs[0][2][0], "pickle", [sn, _P("dataset_name"), _P("cv_fold"), C("train")], "save_fitted_strategy")
+    _same_address(effs[0][2][0], kf, {"strategy_name": sn, "dataset_name": _P("dataset_name"), "cv_fold": _P("cv_fold")},
+                  "save_fitted_strategy")
     if effs[1] != ("call", ("attr", ("self",), "_append_key"), (sn, _P("dataset_name")), ()):
         _fail("HDDResults.save_fitted_strategy must end with self._append_key(strategy.name, dataset_name)", effs[1])
-    _uses_all_fields(ctx, "HDDResults._generate_key")
     return f
 
 
-def _ram_facts(res, wsig):
-    ctx = Ctx(res, "RAMResults", primitives=RES_PRIMS, hook=_results_hook)
+def _ram_facts(res, wsig, bases):
+    ctx = Ctx(res, "RAMResults", primitives=RES_PRIMS, hook=_results_hook, bases=bases)
     ex = Exec(ctx)
     f = {}
     own = [_P(k) for k in KEYSIG]
@@ -546,7 +576,8 @@ def _ram_facts(res, wsig):
     st, a = effs
     if not (st[0] == "setitem" and st[1] == ("attr", ("self",), "results") and fn_of(st[3]) == "_PredictionsWrapper"):
         _fail("RAMResults.save_predictions: self.results[key] = _PredictionsWrapper(...) expected", st)
-    _key(st[2], None, own, "RAMResults.save_predictions")
+    kr = st[2]                                   # the dict key IS the address of the entry
+    _depends_on(kr, KEYSIG, "RAMResults.save_predictions")
     y = kwget(st[3], wsig, "_PredictionsWrapper")
     if [y.get("strategy_name"), y.get("dataset_name")] != own[:2]:
         _fail("RAMResults.save_predictions: record not labelled with its own names")
@@ -557,19 +588,31 @@ def _ram_facts(res, wsig):
     # load_predictions
     fn = ctx.method("load_predictions")
     node = ex.run_function(fn, {"self": ("self",), "cv_fold": _P("cv_fold"), "train_or_test": _P("train_or_test")})
-    effs, term = straight(node, "RAMResults.load_predictions")
-    loops = [e for e in effs if e[0] == "for"]
-    others = [e for e in effs if e[0] != "for" and show(e) != "self._iter()"]
-    if len(loops) != 1 or others or show(loops[0][1]) != "self._iter()":
-        _fail("RAMResults.load_predictions: one loop over self._iter() expected")
-    lv = loops[0][4]
-    beffs, bterm = straight(loops[0][3], "RAMResults.load_predictions loop body")
+    s_lv, d_lv, f["reg_outer"], body = _registry_loops(node, "RAMResults.load_predictions")
+    beffs, bterm = straight(body, "RAMResults.load_predictions loop body")
     want = ("sub", ("attr", ("self",), "results"),
-            ("genkey", (("proj", lv, 0, 2), ("proj", lv, 1, 2), _P("cv_fold"), _P("train_or_test"))))
-    if beffs != [("yield", want)] or bterm[0] != "end":
-        _fail("RAMResults.load_predictions: must yield self.results[key] over the registry")
-    _uses_all_fields(ctx, "RAMResults._generate_key")
+            subst(kr, {_P("strategy_name"): s_lv, _P("dataset_name"): d_lv}))
+    if beffs != [("yield", want)] or bterm[0] not in ("end", "cont"):
+        _fail("RAMResults.load_predictions: must yield self.results[<the key save_predictions used>] over the registry")
     return f
+
+
+def _registry_loops(node, what):
+    """load_predictions: the two nested loops over the registered names (written out, or in a
+    generator helper of any name - it is inlined) -> (strategy variable, dataset variable, which is
+    outer, innermost body)"""
+    lvs, order = {}, []
+    cur = node
+    while len(order) < 2:
+        effs, term = straight(cur, what)
+        loops = [e for e in effs if e[0] == "for"]
+        if len(loops) != 1 or len(effs) != 1 or show(loops[0][1]) not in ("self.strategy_names", "self.dataset_names") \
+                or not isinstance(loops[0][2], str) or show(loops[0][1]) in order:
+            _fail("%s: nested loops over self.strategy_names and self.dataset_names expected" % what)
+        order.append(show(loops[0][1]))
+        lvs[order[-1]] = loops[0][4]
+        cur = loops[0][3]
+    return lvs["self.strategy_names"], lvs["self.dataset_names"], "s" if order[0] == "self.strategy_names" else "d", cur
 
 
 def _append_shape(node, what):
@@ -615,25 +658,6 @@ def _base_facts(base):
     if sorted(upd) != ["dataset_names", "strategy_names"]:
         _fail("_append_key must maintain strategy_names and dataset_names, found %s" % sorted(upd))
     f["append"] = {"self." + k: v for k, v in upd.items()}
-    # registry iteration
-    node = ex.run_function(ctx.method("_iter"), {"self": ("self",)})
-    effs, term = straight(node, "BaseResults._iter")
-    order = []
-    cur = effs
-    lvs = {}
-    while True:
-        loops = [e for e in cur if e[0] == "for"]
-        if len(loops) == 1 and len(cur) == 1 and show(loops[0][1]) in ("self.strategy_names", "self.dataset_names") \
-                and isinstance(loops[0][2], str):
-            order.append(show(loops[0][1]))
-            lvs[show(loops[0][1])] = loops[0][4]
-            cur, t2 = straight(loops[0][3], "BaseResults._iter")
-            continue
-        break
-    if sorted(order) != ["self.dataset_names", "self.strategy_names"] or \
-            cur != [("yield", ("tuple", (lvs["self.strategy_names"], lvs["self.dataset_names"])))]:
-        _fail("BaseResults._iter: nested loops over the two name lists yielding (strategy, dataset)")
-    f["reg_outer"] = "s" if order[0] == "self.strategy_names" else "d"
     # HDDBaseResults.save
     ctx2 = Ctx(base, "HDDBaseResults", primitives={"_iter", "_append_key", "save", "_generate_key", "_validate_path"})
     ex2 = Exec(ctx2)
@@ -704,12 +728,24 @@ def translate(repo):
     for rel in (ORCH, RES, BASE):
         with open(os.path.join(repo, rel)) as fh:
             mods[rel] = ast.parse(fh.read())
-    it = _iter_facts(mods[ORCH])
-    fp = _fit_predict_facts(mods[ORCH], it["roles"])
+    fp = _orch_facts(mods[ORCH])
+    it = fp
     wsig = _wrapper_sig(mods[BASE])
-    hdd = _hdd_facts(mods[RES], wsig)
-    ram = _ram_facts(mods[RES], wsig)
+    hdd = _hdd_facts(mods[RES], wsig, [(mods[BASE], "HDDBaseResults"), (mods[BASE], "BaseResults")])
+    ram = _ram_facts(mods[RES], wsig, [(mods[BASE], "BaseResults")])
     base = _base_facts(mods[BASE])
+    if hdd["reg_outer"] != ram["reg_outer"]:
+        _fail("the two stores iterate over the registry in different orders")
+    base["reg_outer"] = hdd["reg_outer"]
+    # a keyword the Orchestrator passes to the results object must be a parameter of BOTH stores
+    for cls in ("HDDResults", "RAMResults"):
+        c = Ctx(mods[RES], cls, bases=[(mods[BASE], "HDDBaseResults"), (mods[BASE], "BaseResults")])
+        for meth, kws in fp["api_kws"].items():
+            if meth in c.methods:
+                names, _ = _params(c.methods[meth], True)
+                for k in sorted(kws):
+                    if k not in names:
+                        _fail("fit_predict passes %s=... to results.%s, which %s.%s does not accept" % (k, meth, cls, meth))
     o = [HEADER % (ORCH, RES, BASE)]
     o.append("(* Orchestrator.fit_predict: `if <this>: raise ValueError` before anything else *)\n"
              "Definition gen_rejects (fl : flags) : bool := %s.\n\n" % fp["rejects"])
